@@ -931,6 +931,21 @@ func (e *Exec) applyContract(s *State, c *ssa.Call, fn *ssa.Function, con *Contr
 						rets = append(rets, zeroVal(rt))
 					case p == "error":
 						rets = append(rets, mkErr("from "+con.target()))
+					case p == "pure":
+						// an unknown string determined by the callee and its string arguments
+						var parts []string
+						for _, a := range args {
+							if t, ok := a.(Text); ok {
+								parts = append(parts, t.String())
+							}
+						}
+						rets = append(rets, atom(pureAtomName(con.target(), parts)))
+					case len(p) >= 2 && p[0] == '"':
+						sv, err := strconv.Unquote(p)
+						if err != nil {
+							unsupported("%s: bad string literal %s", sc.Pos, p)
+						}
+						rets = append(rets, lit(sv))
 					case strings.Contains(p, ":"):
 						kv := strings.SplitN(p, ":", 2)
 						rets = append(rets, e.w.codegenType(st2, kv[0], kv[1]))
